@@ -271,6 +271,14 @@ func init() {
 				return one(VBV{r, true})
 			}
 			r := App("bytesCompare", SBV(64), x, y)
+			// one side of constant length L: exact when the other side has that length too (decided by the solver)
+			for _, side := range [][2]*Term{{x, y}, {y, x}} {
+				if l, ok := Blen(side[0]).U64(); ok && l > 0 && l <= 64 {
+					xv, yv := beRead(x, BV(64, 0), int(l)), beRead(y, BV(64, 0), int(l))
+					exact := Ite(BVUlt(xv, yv), BV(64, -1), Ite(Eq(xv, yv), BV(64, 0), BV(64, 1)))
+					return one(VBV{Ite(Eq(Blen(side[1]), BV(64, int64(l))), exact, r), true})
+				}
+			}
 			return one(VBV{r, true})
 		},
 		"(encoding/binary.bigEndian).PutUint32": func(ex *Exec, st *State, cc *ssa.CallCommon, a []Value) []Value {
